@@ -22,7 +22,8 @@ PARTNER_COEF = 128.0
 MOTION_COEF = {"t": 64.0, "D": 8.0}
 SPAN = 2.0
 TOL = 0.05
-CALL_BUDGET_S = 60
+CALL_BUDGET_S = 20
+MAX_FAILING_CASES = 25   # a run stops exploring once this many cases violate the property
 
 
 class CallTimeout(Exception):
@@ -167,7 +168,8 @@ def build_smp(tp, torch, s):
     if k == "&":
         return build_smp(tp, torch, s["a"]).append(build_smp(tp, torch, s["b"]))
     if k == "T":
-        return build_smp(tp, torch, s["s"]).make_static()
+        inner = build_smp(tp, torch, s["s"])
+        return inner.make_static(s["r"]) if s.get("r") else inner.make_static()
     raise ValueError(k)
 
 
@@ -417,13 +419,29 @@ def mask_model_rows(case, text):
 # ------------------------------------------------------------------------------------------
 # running one case on the implementation
 
+def static_intervals(s):
+    """resample intervals of all static nodes (None = never resample)"""
+    if s["k"] in ("leaf", "data"):
+        return []
+    if s["k"] == "T":
+        return [s.get("r")] + static_intervals(s["s"])
+    return static_intervals(s["a"]) + static_intervals(s["b"])
+
+
+def n_calls(case):
+    """length of the call history: 2 calls, or 3r+1 when a static node resamples every r calls"""
+    rs = [r for r in static_intervals(case["s"]) if r]
+    return max([2] + [3 * r + 1 for r in rs])
+
+
 def run_impl(case):
     tp = common.use_repo()
     import torch
     torch.manual_seed(case.get("tseed", 0))
-    res = dict(problems=[])
+    res = dict(problems=[], calls=[], lens=[])
     old = signal.signal(signal.SIGALRM, _alarm)
     signal.alarm(CALL_BUDGET_S)
+    pts_all = []
     try:
         with contextlib.redirect_stdout(io.StringIO()) as so:
             smp = build_smp(tp, torch, case["s"])
@@ -432,32 +450,34 @@ def run_impl(case):
                 res["len_before"] = int(len(smp))
             except Exception as e:  # noqa
                 res["len_before"] = f"raises {type(e).__name__}"
-            pts = smp.sample_points(params)
-            res["len_after"] = int(len(smp))
-            pts2 = smp.sample_points(params)
+            for c in range(n_calls(case)):
+                res["failed_call"] = c + 1
+                pts_all.append(smp.sample_points(params))
+                res["lens"].append(int(len(smp)))
+            res.pop("failed_call")
         if so.getvalue().strip():
             res["stdout"] = so.getvalue()[:200]
     except CallTimeout:
-        res["error"] = f"sampling call did not return within {CALL_BUDGET_S} s"
+        res["error"] = f"call {res.get('failed_call')} of sample_points did not return within {CALL_BUDGET_S} s"
         return res
     except Exception as e:  # noqa
-        res["error"] = f"{type(e).__name__}: {str(e)[:160]}"
+        res["error"] = f"call {res.get('failed_call')}: {type(e).__name__}: {str(e)[:160]}"
         return res
     finally:
         signal.alarm(0)
         signal.signal(signal.SIGALRM, old)
-    out = []
-    for p in (pts, pts2):
+    for c, p in enumerate(pts_all):
         t = p.as_tensor
         if t.dim() != 2:
-            res["error"] = f"sample_points returned a tensor of shape {tuple(t.shape)}"
+            res["error"] = f"call {c + 1}: sample_points returned a tensor of shape {tuple(t.shape)}"
             return res
         out_vars = list(p.space.keys())
         dims = [p.space[v] for v in out_vars]
-        out.append((out_vars, dims, t.tolist()))
-    res["vars"], res["dims"], res["rows_raw"] = out[0]
-    res["second"] = out[1]
-    res["static_same"] = bool(pts.as_tensor.shape == pts2.as_tensor.shape and (pts.as_tensor == pts2.as_tensor).all())
+        res["calls"].append((out_vars, dims, t.tolist()))
+    res["vars"], res["dims"], res["rows_raw"] = res["calls"][0]
+    res["same_as_previous"] = [None] + [
+        bool(a.as_tensor.shape == b.as_tensor.shape and (a.as_tensor == b.as_tensor).all())
+        for a, b in zip(pts_all, pts_all[1:])]
     return res
 
 
@@ -473,8 +493,8 @@ def oracles(case, res):
         return [f"sample_points with {case['k']} parameter rows failed: {res['error']}"]
     per_param = slen(s)
     exp_vars = svars(s) + (case["pvars"] if k else [])
-    for which, (vars_, dims, raw) in (("first", (res["vars"], res["dims"], res["rows_raw"])), ("second", res["second"])):
-        tag = f"{which} call: "
+    for cno, (vars_, dims, raw) in enumerate(res["calls"], 1):
+        tag = f"call {cno} of {len(res['calls'])}: "
         if len(raw) != per_param * max(1, k):
             fails.append(f"{tag}{len(raw)} rows returned, the sampler was asked for {per_param} points for each of "
                          f"{k} parameter rows ({per_param * max(1, k)} rows)")
@@ -516,10 +536,20 @@ def oracles(case, res):
     # length book-keeping
     if isinstance(res.get("len_before"), int) and res["len_before"] != per_param:
         fails.append(f"len(sampler) = {res['len_before']} before the first call, a parameter-free call returns {per_param} rows")
-    if k == 0 and res.get("len_after") != len(res["rows_raw"]):
-        fails.append(f"len(sampler) = {res.get('len_after')} after a parameter-free call that returned {len(res['rows_raw'])} rows")
-    if s["k"] == "T" and not res["static_same"]:
-        fails.append("static sampler returned different points on the second call")
+    if k == 0:
+        for cno, (ln, call) in enumerate(zip(res["lens"], res["calls"]), 1):
+            if ln != len(call[2]):
+                fails.append(f"len(sampler) = {ln} after parameter-free call {cno} that returned {len(call[2])} rows")
+                break
+    if s["k"] == "T":
+        # a static sampler hands out the saved points again, except in the calls in which it resamples
+        # (calls 1, r+1, 2r+1, ... for resample_interval r)
+        r = s.get("r")
+        for cno, same in enumerate(res["same_as_previous"], 1):
+            resamples = r is not None and (cno - 1) % r == 0
+            if same is False and not resamples:
+                fails.append(f"static sampler (resample_interval {r}) returned different points in call {cno}")
+                break
     return fails
 
 
@@ -601,7 +631,18 @@ class Gen:
             n = min(n, 6)
         return dict(k="leaf", kind=kind, d=d, n=n, filt=filt)
 
-    def smp(self, depth, vpool, avail):
+    def maybe_static(self, node, p=0.15):
+        """static nodes (also with a finite resample interval) at every position of the expression"""
+        if self.rng.random() < p:
+            return dict(k="T", s=node, r=self.rng.choice([None, None, 1, 2, 2, 3]))
+        return node
+
+    def smp(self, depth, vpool, avail, changing=False):
+        return self.maybe_static(self._smp(depth, vpool, avail, changing))
+
+    def _smp(self, depth, vpool, avail, changing=False):
+        """changing: the expression is (part of) the first factor of a product, i.e. it is handed other
+        parameter rows in every call"""
         rng = self.rng
         c = rng.random()
         if depth == 0 or c < 0.30 or len(vpool) < 2:
@@ -609,13 +650,13 @@ class Gen:
                 return dict(k="data", v=vpool.pop(0), id=self.new_id(), m=rng.choice([1, 2, 3, 5]))
             return self.leaf(vpool, avail)
         if c < 0.62:
-            b = self.smp(depth - 1, vpool, avail)
+            b = self.smp(depth - 1, vpool, avail, changing)
             av = dict(avail)
             for lf in leaves_of(b):
                 # a partner variable may be used as a dependency when its values are small
                 if lf["k"] == "leaf" and lf["d"]["k"] == "I" and not lf["d"]["deps"] and lf["d"]["base"] <= 4 and not lf["d"].get("bd"):
                     av[lf["d"]["v"]] = True
-            a = self.smp(depth - 1, vpool, av)
+            a = self.smp(depth - 1, vpool, av, True)
             return dict(k="*", a=a, b=b)
         if c < 0.78:
             a = self.leaf(vpool, avail)
@@ -626,7 +667,7 @@ class Gen:
             b["filt"] = False if b["kind"] != a["kind"] else a["filt"]
             b["n"] = rng.choice([1, 2, 3, 5])
             shift_ids(b["d"], self, 3.0)
-            return dict(k="+", a=a, b=b)
+            return dict(k="+", a=self.maybe_static(a), b=self.maybe_static(b))
         if c < 0.94:
             n = rng.choice([1, 2, 3, 5])
             a = self.leaf(vpool, avail, n=n)
@@ -634,8 +675,11 @@ class Gen:
                 return a
             b = self.leaf(vpool, avail, n=n if rng.random() < 0.93 else n + 1) if rng.random() < 0.8 else \
                 dict(k="data", v=vpool.pop(0), id=self.new_id(), m=n)
-            return dict(k="&", a=a, b=b)
-        return dict(k="T", s=self.smp(depth - 1, vpool, avail))
+            # a static operand hands out its saved rows (with the parameter rows saved with them): column-stacking
+            # them with a fresh sample is only meaningful when every call gets the same parameter rows
+            p = 0.0 if changing else 0.15
+            return dict(k="&", a=self.maybe_static(a, p), b=self.maybe_static(b, p))
+        return dict(k="T", s=self.smp(depth - 1, vpool, avail, changing), r=rng.choice([None, 1, 2, 3]))
 
 
 def has_bd(d):
@@ -723,7 +767,7 @@ def total_rows(case):
 def gen_cases(ctx):
     rng = ctx.rng
     cases, i = [], 0
-    want = ctx.scale(1400, 14000)
+    want = ctx.scale(1000, 10000)
     while len(cases) < want:
         i += 1
         c = gen_case(rng, i)
@@ -749,7 +793,7 @@ def describe(case):
         if s["k"] == "data":
             return f"data({s['v']},{s['m']})"
         if s["k"] == "T":
-            return f"static({ss(s['s'])})"
+            return f"static{s.get('r') or ''}({ss(s['s'])})"
         return f"({ss(s['a'])} {s['k']} {ss(s['b'])})"
     return f"k={case['k']} params={case['pvars']} {ss(case['s'])}"
 
@@ -769,6 +813,7 @@ def histogram(rep, case):
         if x["k"] == "data":
             return depth
         if x["k"] == "T":
+            rep.count(f"static interval={x.get('r') or 'inf'}")
             return walk(x["s"], depth + 1)
         return max(walk(x["a"], depth + 1), walk(x["b"], depth + 1))
 
@@ -783,6 +828,14 @@ def histogram(rep, case):
     rep.count(f"depth={dp}")
     if s["k"] == "*" and case["k"] > 0:
         rep.count("product with external parameters")
+
+    def static_first_factor(x):
+        if x["k"] == "*" and x["a"]["k"] == "T" and x["a"].get("r"):
+            return True
+        return any(static_first_factor(x[key]) for key in ("a", "b", "s") if key in x and isinstance(x[key], dict) and "k" in x[key]
+                   and x[key]["k"] in ("*", "+", "&", "T"))
+    if static_first_factor(s):
+        rep.count("product whose first factor is static with a finite resample interval")
 
 
 def dom_free(d):
@@ -808,21 +861,36 @@ def free_deps(s):
     return free_deps(s["a"]) | free_deps(s["b"])
 
 
-def shrink(case, budget=40):
+def variants(s):
+    """expressions with one reduction somewhere: a node replaced by a child, a leaf asked for fewer points"""
+    out = []
+    if s["k"] == "leaf":
+        if s["n"] > 1:
+            out.append(dict(s, n=max(1, s["n"] // 2)))
+        return out
+    if s["k"] == "data":
+        return out
+    if s["k"] == "T":
+        out.append(s["s"])
+        out += [dict(s, s=v) for v in variants(s["s"])]
+        return out
+    out += [s["a"], s["b"]]
+    if s["k"] != "+":       # the operands of a sum must keep the same space; n of append operands must stay equal
+        out += [dict(s, a=v) for v in variants(s["a"]) if s["k"] == "*" or v.get("k") != "leaf" or v.get("n") == s["a"].get("n")]
+        out += [dict(s, b=v) for v in variants(s["b"]) if s["k"] == "*" or v.get("k") != "leaf" or v.get("n") == s["b"].get("n")]
+    return out
+
+
+def shrink(case, budget=60):
     """structural shrinking: sub-expressions and fewer parameter rows, while a property oracle still fails"""
     best, best_fails = case, None
     progress = True
     while progress and budget > 0:
         progress = False
         s = best["s"]
-        cands = []
-        for key in ("a", "b", "s"):
-            if key in s and isinstance(s[key], dict) and s[key].get("k") in ("leaf", "data", "*", "+", "&", "T"):
-                cands.append(dict(best, s=s[key]))
+        cands = [dict(best, s=v) for v in variants(s)]
         if best["k"] > 1:
             cands.append(dict(best, k=best["k"] - 1, pvals=best["pvals"][:-1]))
-        if s["k"] == "leaf" and s["n"] > 1:
-            cands.append(dict(best, s=dict(s, n=max(1, s["n"] // 2))))
         for c in cands:
             if not free_deps(c["s"]) <= set(c["pvars"] if c["k"] else []):
                 continue
@@ -843,23 +911,29 @@ def judge(rep, case, res, reply):
             rep.fail(sf[0], dict(case=small, text=describe(small), shrunk_from=describe(case)))
     for f in fails:
         rep.fail(f, dict(case=case, text=describe(case)))
-    # correspondence
-    if "error" in res:
-        impl = "err"
-        rep.count("impl-error")
-    else:
-        prows = [tuple(float(x) for x in r) for r in case["pvals"]] if case["k"] else []
-        dec = decode(case, res["vars"], res["dims"], res["rows_raw"], prows)
-        impl = f"ok len={res['len_before']} vars={','.join(res['vars'])} rows={len(dec)} | " + " | ".join(dec)
+    # correspondence, call by call (the model's answer is the same for every call of the history)
     if reply.startswith("ok "):
         head, _, body = reply.partition(" | ")
         model = head + " | " + " | ".join(mask_model_rows(case, body)) if body else head
     else:
         model = "err" if reply.startswith("err:") else reply
         rep.count("model-" + reply.split(" ")[0])
-    if impl != model:
-        rep.disagree("sampler rows: drivers/C02.lean `sample` vs sample_points of the real sampler expression",
-                     dict(case=case, text=describe(case)), impl[:1500], (reply if model == "err" else model)[:1500])
+    if "error" in res:
+        impls = ["err"]
+        rep.count("impl-error")
+    else:
+        prows = [tuple(float(x) for x in r) for r in case["pvals"]] if case["k"] else []
+        impls = []
+        for vars_, dims, raw in res["calls"]:
+            dec = decode(case, vars_, dims, raw, prows)
+            impls.append(f"ok len={res['len_before']} vars={','.join(vars_)} rows={len(dec)} | " + " | ".join(dec))
+        rep.count(f"calls={len(impls)}")
+    for cno, impl in enumerate(impls, 1):
+        if impl != model:
+            rep.disagree("sampler rows: drivers/C02.lean `sample` vs sample_points of the real sampler expression "
+                         f"(call {cno} of {len(impls)})",
+                         dict(case=case, text=describe(case)), impl[:1500], (reply if model == "err" else model)[:1500])
+            break
     return fails
 
 
@@ -867,7 +941,16 @@ def run(ctx, rep, cases=None):
     rep.rule = ("seeded sampler expressions (depth <= 3) over tagging domains; a case is non-trivial if it has >= 1 parameter "
                 "row or is a composition, and asks for >= 2 points somewhere; distinct = distinct (expression, n, k) texts")
     cases = cases if cases is not None else gen_cases(ctx)
-    results = [run_impl(c) for c in cases]
+    results, failing = [], 0
+    for c in cases:
+        r = run_impl(c)
+        results.append(r)
+        if oracles(c, r):
+            failing += 1
+            if failing >= MAX_FAILING_CASES:
+                rep.notes.append(f"stopped after {len(results)} of {len(cases)} cases: {failing} cases violate the property")
+                break
+    cases = cases[:len(results)]
     lines = [case_line(c) for c in cases]
     try:
         replies = common.run_driver("C02", lines)
